@@ -159,7 +159,7 @@ def check_sequence(obj, den, tailmaps, max_tail=2, label=None, nlook=None):
     for i, (el, chain) in enumerate(zip(den, chains)):
         tails = tailmaps[tuple(el['ref'])]
         for tk, (tail, tmap, tlen) in tails.items():
-            if tlen > max_tail or (tlen >= 2 and not (i in (0, n - 1) or i % 3 == 0)):
+            if tlen > max_tail or (tlen >= 2 and not (i in (0, n - 1) or i % 4 == 1)):
                 continue
             nlook[0] += 1
             q = chain + tail
